@@ -17,8 +17,11 @@ PRE = ["proj regs", "setcfg MaxEvaluationCost 30000", "backend", "connect u1", "
        "line u1 do me ld:eccb:/obj/ecc;mk:ec:/obj/ec", "cycle", "line u1 do me probe", "cycle"]
 
 
-def script_of(shape, k=None, count=False):
+def script_of(shape, k=None, count=False, nocg=False):
     ops = list(PRE)
+    if nocg:      # the evaluation starts in a heart beat of a non-living object: no command giver to begin with
+        return ops + ["line u1 do me mk:ecd:/obj/ecd", "cycle", "line u1 do me hbshape:%s" % ",".join(shape), "cycle", "tick 2", "cycle",
+                      "line u1 do me probe", "cycle", "cycle"]
     if count:
         ops.append("izero")
     if k:
@@ -104,6 +107,9 @@ def run(tier, work):
         scen.append((str(i), script_of(s))); meta.append((s, None))
     for s, k in plans:
         scen.append((str(len(scen)), script_of(s, k))); meta.append((s, k))
+    for s in allshapes:
+        if len(s) <= 4:
+            scen.append((str(len(scen)), script_of(s, nocg=True))); meta.append((s, None))
     print("GEN %d shapes (%d generator states) + %d fault positions over %d error-free shapes" % (len(allshapes), gs["states"], len(plans), len(clean)))
     t1 = time.time()
     exs = vlib.run_vdrv(exe, conf, scen, work, tag="run")
